@@ -510,6 +510,12 @@ func genDialogueOnce(r *rand.Rand, plain bool) Desc {
 		if slack := len(region) - p; slack > 0 && r.Intn(2) == 0 && k < sent {
 			e.Hold = 1 + r.Intn(slack)
 		}
+		if e.LongTail {
+			// the notice behind its first line (which carries the expected response) is withheld until
+			// the next input is typed: it then arrives during that event's echo phase, and the
+			// response is never pushed out of the search window by its own tail
+			e.Hold = len(e.Text) - (strings.Index(e.Text, d.NL) + len(d.NL))
+		}
 	}
 	return d
 }
